@@ -400,6 +400,133 @@ def monotone_and_visc(I, ctx, s1, s2, s3):
     ctx.oracle_cases('viscosity-positive', nv, min_viscosity=vmin)
 
 
+# ---------------------------------------------------------------- routines are functions of the VALUES of their arguments
+def _same(a, b, tol=1e-12):
+    """two results of a routine agree (None / int / float / tuple / ndarray), to a relative tolerance"""
+    if a is None or b is None: return a is None and b is None
+    if isinstance(a, tuple) and len(a) and a[0] == 'raise': return isinstance(b, tuple) and len(b) and b[0] == 'raise'
+    if isinstance(b, tuple) and len(b) and b[0] == 'raise': return False
+    if isinstance(a, tuple) or isinstance(b, tuple):
+        return isinstance(a, tuple) and isinstance(b, tuple) and len(a) == len(b) and all(_same(x, y, tol) for x, y in zip(a, b))
+    try:
+        import numpy as np
+        x, y = np.asarray(a, dtype=float), np.asarray(b, dtype=float)
+        if x.shape != y.shape: return False
+        return bool(np.all((np.abs(x - y) <= tol * np.abs(y)) | ((x != x) & (y != y))))
+    except Exception:
+        return False
+
+
+def purity_cases(I, rng, n):
+    """(routine name, tuple of float arguments): valid states of every routine"""
+    tc = T_CRIT_K - TC_K
+    cs = []
+    for k in range(n):
+        t = rng.uniform(350.0, 590.0); cs.append(('b23p', (t,)))
+        cs.append(('b23t', (rng.uniform(16.6e6, 100e6),)))
+        cs.append(('sat', (rng.uniform(0.01, tc),)))
+        cs.append(('tsat', (math.exp(rng.uniform(math.log(700.0), math.log(P_CRIT))),)))
+        t = rng.uniform(0.01, 350.0); cs.append(('cowat', (t, rng.uniform(spec_psat(t), 100e6))))
+        t = rng.uniform(0.01, 800.0); cs.append(('supst', (t, rng.uniform(10.0, upper_p_region2(t)))))
+        cs.append(('super', (rng.uniform(150.0, 700.0), rng.uniform(375.0, 590.0))))
+        cs.append(('visc', (10 ** rng.uniform(-2, 3), rng.uniform(0.01, 800.0))))
+        cs.append(('region', (rng.uniform(0.01, 800.0), rng.uniform(1.0, 100e6))))
+    return cs
+
+
+def purity(I, ctx, n, only=None):
+    """General clause behind every 'for all temperatures / pressures' of the statement: what a routine
+    returns for a state depends on the VALUES it is given and on nothing else -- not on earlier calls
+    (order of evaluation), not on the numeric container that carries the value (Python float,
+    np.float64, 0-d ndarray, and -- where the routine accepts them -- an element of a 1-d ndarray or of a
+    row of a 2-d ndarray, the way a grid of boundary temperatures is evaluated in one call); and the
+    routine leaves the caller's arguments as they were and returns no view of them."""
+    import numpy as np
+    name = 'pure-function-of-argument-values'
+    rng = ctx.rng
+    cases = only if only is not None else purity_cases(I, rng, n)
+    ncase = 0
+    def module_state():
+        st = {}
+        for k, v in vars(I).items():
+            if k.startswith('__'): continue
+            if isinstance(v, np.ndarray): st[k] = v.copy()
+            elif isinstance(v, (int, float, tuple)) and not isinstance(v, bool): st[k] = v
+        return st
+    state0 = module_state()
+    ref = []
+    for fn, args in cases:                      # reference: plain Python floats, in generation order
+        ref.append(call(getattr(I, fn), *[float(a) for a in args]))
+    # (1) order of evaluation: shuffled, then reversed, then in order again
+    idx = list(range(len(cases)))
+    for order in (rng.sample(idx, len(idx)), idx[::-1], idx):
+        for k in order:
+            fn, args = cases[k]
+            ctx.count((fn, 'order', args)); ncase += 1
+            r = call(getattr(I, fn), *[float(a) for a in args])
+            if not _same(r, ref[k], 0.0):
+                ctx.failure(name, fn + ':depends-on-earlier-calls', {'fn': fn, 'args': list(args), 'clause': 'order'},
+                            '%r, earlier in the same process %r' % (r, ref[k]), 'the same result whenever the call is made')
+    # (2) containers, mutation, aliasing, repeatability
+    def containers(args):
+        yield 'np.float64', [np.float64(a) for a in args], None
+        yield '0-d ndarray', [np.array(a, dtype=float) for a in args], None
+        pad = [rng.uniform(0.9, 1.1) for _ in range(4)]
+        pos = rng.randrange(5)
+        vecs = []
+        for a in args:
+            v = [a * f for f in pad]; v.insert(pos, a); vecs.append(v)
+        yield '1-d ndarray', [np.array(v, dtype=float) for v in vecs], pos
+        yield 'row of a 2-d ndarray', [np.array([v, v[::-1]], dtype=float)[0] for v in vecs], pos
+    nacc = {}
+    for k, (fn, args) in enumerate(cases):
+        f = getattr(I, fn)
+        for cname, cargs, pos in containers(args):
+            before = [np.array(c, dtype=float, copy=True) for c in cargs]
+            r = call(f, *cargs)
+            if pos is not None and isinstance(r, tuple) and len(r) and r[0] == 'raise':
+                nacc[(fn, 'not accepted')] = nacc.get((fn, 'not accepted'), 0) + 1
+                # a routine may refuse arrays; it must still leave them alone
+                if not all(np.array_equal(np.asarray(c, dtype=float), b) for c, b in zip(cargs, before)):
+                    ctx.failure(name, fn + ':mutates-argument', {'fn': fn, 'args': list(args), 'container': cname, 'clause': 'container'},
+                                'arguments after the (failed) call: %r' % ([np.asarray(c).tolist() for c in cargs],), 'arguments unchanged')
+                continue
+            ctx.count((fn, cname, args)); ncase += 1
+            nacc[(fn, cname)] = nacc.get((fn, cname), 0) + 1
+            inp = {'fn': fn, 'args': list(args), 'container': cname, 'clause': 'container'}
+            if not all(np.array_equal(np.asarray(c, dtype=float), b) for c, b in zip(cargs, before)):
+                ctx.failure(name, fn + ':mutates-argument', inp,
+                            'arguments after the call: %r' % ([np.asarray(c).tolist() for c in cargs],),
+                            'the caller\'s arguments unchanged: %r' % ([b.tolist() for b in before],))
+                continue
+            got = r
+            if pos is not None:
+                try: got = tuple(x[pos] for x in r) if isinstance(r, tuple) else r[pos]
+                except Exception: got = ('shape', repr(r)[:80])
+            if not _same(got, ref[k]):
+                ctx.failure(name, fn + ':value-depends-on-argument-type', inp, repr(got)[:200], 'as for Python floats: %r' % (ref[k],))
+                continue
+            if any(isinstance(x, np.ndarray) and x.ndim and any(np.shares_memory(x, c) for c in cargs if isinstance(c, np.ndarray))
+                   for x in (r if isinstance(r, tuple) else (r,))):
+                ctx.failure(name, fn + ':result-aliases-argument', inp, 'the returned array shares memory with an argument', 'a fresh result')
+                continue
+            r2 = call(f, *cargs)                 # the caller goes on using the same objects
+            if not _same(r2, r, 0.0):
+                ctx.failure(name, fn + ':not-repeatable', inp, 'second call on the same objects: %r, first: %r' % (repr(r2)[:120], repr(r)[:120]),
+                            'the same result')
+    # (3) the module's own tables and constants are as they were before all these calls
+    state1 = module_state()
+    for k in sorted(set(state0) | set(state1)):
+        a, b = state0.get(k), state1.get(k)
+        same = (a is not None and b is not None and
+                (np.array_equal(a, b) if isinstance(a, np.ndarray) or isinstance(b, np.ndarray) else (a == b or (a != a and b != b))))
+        if not same:
+            ctx.failure(name, 'module:state-changed-by-calls', {'fn': 'module', 'args': [], 'name': k, 'clause': 'state'},
+                        '%s is now %s' % (k, repr(b)[:120]), 'module-level data unchanged by evaluating the routines (was %s)' % repr(a)[:120])
+    ctx.oracle_cases(name, ncase, accepted={'%s/%s' % k: v for k, v in sorted(nacc.items())})
+
+
+
 # ---------------------------------------------------------------- region classifier
 def classifier(I, ctx, n, pts=None):
     name = 'region-classifier'
@@ -531,6 +658,7 @@ def sweep(I, ctx, scale=1):
     monotone_and_visc(I, ctx, s1, s2, s3)
     classifier(I, ctx, 4000 * scale)
     boundaries(I, ctx, 120 * scale)
+    purity(I, ctx, 12 * scale)
 
 
 # ---------------------------------------------------------------- deep search and replay
@@ -561,6 +689,7 @@ def deep_sweep(I, ctx, rounds):
         monotone_and_visc(I, ctx, s1, s2, s3)
         boundaries(I, ctx, 400)
         classifier(I, ctx, 4000)
+        purity(I, ctx, 12)
         sat_line(I, ctx, 500)
         b23_line(I, ctx, 300)
         if ctx.new_failures: return
@@ -581,7 +710,11 @@ def replay_one(I, key, inp):
     """Re-evaluate the clause that failed on the recorded input; True iff it still fails."""
     m = MiniCtx()
     fn = inp.get('fn', '')
-    if key.startswith(('tsat:', 'sat:')) and 'differs' not in key:
+    if inp.get('clause') == 'state':
+        purity(I, m, 4)
+    elif inp.get('clause') in ('order', 'container'):
+        purity(I, m, 0, only=[(fn, tuple(inp['args']))] * (3 if inp['clause'] == 'order' else 1))
+    elif key.startswith(('tsat:', 'sat:')) and 'differs' not in key:
         if 't' in inp: sat_line(I, m, 0, ts=[inp['t']], ps=[])
         else: sat_line(I, m, 0, ts=[], ps=[inp['p']])
     elif key.startswith('sat:differs'):
